@@ -5,6 +5,7 @@ import Deb822Verif.Driver.Cpr
 import Deb822Verif.Driver.Total
 import Deb822Verif.Driver.Codec
 import Deb822Verif.Driver.Sat
+import Deb822Verif.Driver.Derive
 open Deb822Verif
 
 def dispatch (op : String) (args : List String) : String :=
@@ -14,6 +15,7 @@ def dispatch (op : String) (args : List String) : String :=
     <|> (Driver.Total.handle op args)
     <|> (Driver.Codec.handle op args)
     <|> (Driver.Sat.handle op args)
+    <|> (Driver.Derive.handle op args)
   match r with
   | some s => s
   | none => "bad-op"
